@@ -111,6 +111,12 @@ def whole_runs(ctx):
         if rnd.random() < 0.5:
             c += [('Total Capital Cost', configs.fmt(configs.dec(rnd, 20, 150, 1))), ('One-time Grants Etc', configs.fmt(configs.dec(rnd, 0.5, 8, 2)))]
         cfgs.append(c)
+    for prodname in ('Electricity', 'Heat', 'Cooling'):   # a tax credit stated with exactly the declared default value of its parameter
+        for _ in range(ctx.n(1, 6)):
+            c = [(k, v) for k, v in configs.synthetic(rnd, addons=False) if not k.startswith('Production Tax Credit')]
+            c += [(f'Production Tax Credit {prodname}', {'Electricity': '0.04', 'Heat': '0', 'Cooling': '0'}[prodname]),
+                  ('Production Tax Credit Duration', str(rnd.randint(1, 6))), ('Production Tax Credit Inflation Adjusted', rnd.choice(['True', 'False']))]
+            cfgs.append(c)
     texts = [runner.params_to_text(c) for c in cfgs] + [t for _, t in configs.example_texts(slow=False)]
     cases, itc_terms, itc_owner, fee_terms, fee_owner = [], [], [], [], []
     for text, r in zip(texts, runner.run_many(ctx, texts)):
@@ -148,9 +154,18 @@ def whole_runs(ctx):
             except (ValueError, IndexError, AttributeError, TypeError):
                 return prm['value']
 
+        def stated_or(a):
+            prm = P(a)
+            raw = raw_in.get(prm.get('name'))
+            try:
+                return float(raw[0].strip()) if raw else prm['value']
+            except (ValueError, IndexError, AttributeError, TypeError):
+                return prm['value']
+
         for prod, ptc in (('Elec', 'PTCElec'), ('Heat', 'PTCHeat'), ('Cooling', 'PTCCooling'), ('Carbon', None)):
-            prov = bool(P(ptc)['provided']) if ptc else False
-            flat = [F(R.life), F(int(prov)), F(int(P('PTCDuration')['value'])), F(P(ptc)['value']) if ptc else F(0),
+            # "provided" = stated in the input file (a credit stated at the value that happens to be the default is stated)
+            prov = bool(ptc and (P(ptc)['provided'] or P(ptc).get('name') in raw_in))
+            flat = [F(R.life), F(int(prov)), F(int(P('PTCDuration')['value'])), F(stated_or(ptc)) if ptc else F(0),
                     F(int(bool(P('PTCInflationAdjusted')['value']))), F(P('RINFL')['value']), F(stated(prod + 'StartPrice')),
                     F(stated(prod + 'EndPrice')), F(int(stated(prod + 'EscalationStart'))), F(stated(prod + 'EscalationRate')),
                     F(R.cy)]
